@@ -396,7 +396,7 @@ func c01Pick64(r *verifh.Rng, xs ...int64) int64 { return xs[r.Intn(len(xs))] }
 
 func c01Gen(r *verifh.Rng) []verifh.Section {
 	var secs []verifh.Section
-	nsec := verifh.Scale(160, 1600)
+	nsec := verifh.Scale(160, 5000)
 	for i := 0; i < nsec; i++ {
 		g := &c01G{r: r.Fork()}
 		t0 := int64(r.Pick(1, 2, 250000000, 999999999, 1000000000, 1000000001)) + int64(r.Intn(3))*int64(r.Intn(1000000000))
